@@ -1597,6 +1597,9 @@ func (s *Session) callSiteAsserts(fr *Frame, cc *ssa.CallCommon, st *State, inst
 		}
 	}
 	for i, cl := range clauses {
+		if cl.Mode != "" && cl.Mode != s.runMode {
+			continue
+		}
 		subs := splitClause(cl)
 		for _, sub := range subs {
 			oname := fmt.Sprintf("%s/%s@%s#%d.%s", fr.oblPfx, phase, name, k, clauseNameSplit(cl, i, sub, len(subs)))
@@ -1667,6 +1670,9 @@ func (s *Session) interfere(fr *Frame, cc *ssa.CallCommon, st *State, instr *ssa
 		if !hit {
 			continue
 		}
+		if itf.Pred.Mode != "" && itf.Pred.Mode != s.runMode {
+			continue // interference that belongs to one verification mode (e.g. the concurrent reading of the function)
+		}
 		if itf.Lock != "" {
 			se := &SpecEnv{sess: s, pkg: fr.fn.Pkg.Pkg, vars: s.frameEnv(fr), st: st, old: fr.old, fr: fr}
 			e, err := parseSpec(itf.Lock)
@@ -1685,8 +1691,11 @@ func (s *Session) interfere(fr *Frame, cc *ssa.CallCommon, st *State, instr *ssa
 
 func (s *Session) applyInterference(fr *Frame, itf Interference, st *State, instr *ssa.Call) {
 	before := st.clone()
-	for g := range s.eng.db.Ghosts {
-		s.havocHeap(st, "X:"+g, ghostSort(s.eng.db.Ghosts[g]))
+	if len(itf.Havoc) == 0 {
+		// no explicit list: the shared state is the ghost stores (kv / etcd / ...)
+		for g := range s.eng.db.Ghosts {
+			s.havocHeap(st, "X:"+g, ghostSort(s.eng.db.Ghosts[g]))
+		}
 	}
 	se := &SpecEnv{sess: s, pkg: fr.fn.Pkg.Pkg, vars: s.frameEnv(fr), st: st, old: before, fr: fr}
 	if instr != nil {
@@ -1697,6 +1706,9 @@ func (s *Session) applyInterference(fr *Frame, itf Interference, st *State, inst
 			}
 		}
 		se.lookup = s.localLookupAt(fr, st, instr.Block(), idx)
+	}
+	if len(itf.Havoc) > 0 {
+		s.havocItems(se, itf.Havoc, st)
 	}
 	s.assume(Imp(st.Reach, s.evalBool(se, itf.Pred.E)))
 }
